@@ -242,8 +242,6 @@ class Oracle(object):
             self.failed = (sig, idx, detail)
 
     def style_sig(self):
-        if self.renamed: return 'style-rename'
-        if self.dupnames: return 'style-duplicate-name'
         return 'style-lookup'
 
     def registered_styles(self):
@@ -349,7 +347,7 @@ class History(object):
     # ---- generation
     def prologue(self):
         w = self.w
-        for f in ['P', 'P', 'Span', 'Span', 'Section', 'H', 'List', 'ListItem', 'Styles', 'Style', 'Style', 'Style', 'Style']:
+        for f in ['P', 'P', 'Span', 'Span', 'Section', 'H', 'List', 'ListItem', 'Styles', 'AutomaticStyles', 'Style', 'Style', 'Style', 'Style']:
             i = w.fresh(); self.fname[i] = f
             self.step(['new', 'e', i, f], battery=False)
         styles = [i for i in sorted(self.fname) if self.fname[i] == 'Style']
@@ -372,7 +370,7 @@ class History(object):
     def random_op(self):
         r = self.rng; w = self.w
         for _ in range(40):
-            k = r.choice(['append'] * 4 + ['insb'] * 4 + ['rm'] * 4 + ['adde'] * 2 + ['addstyle'] * 3 + ['attach'] * 3 +
+            k = r.choice(['append'] * 4 + ['insb'] * 4 + ['rm'] * 4 + ['adde'] * 2 + ['addstyle'] * 3 + ['attach'] * 3 + ['container'] * 3 +
                          ['addt', 'addc', 'rename', 'render', 'query', 'query', 'load', 'rmbad', 'textparent'])
             P = self.parents(); M = self.movable()
             if k == 'addstyle':
@@ -381,6 +379,24 @@ class History(object):
                 c = r.choice(S)
                 ks = [w.nid(x) for x in w.nodes[p].childNodes]
                 return ['insb', p, c, r.choice(ks)] if ks and r.random() < 0.3 and c not in ks else ['append', p, c]
+            if k == 'container':
+                # a free office:styles / office:automatic-styles element as a subtree of styles: filled, attached as a
+                # whole, removed as a whole, re-attached
+                C = [i for i in M if w.nodes[i].nodeType == 1 and w.nodes[i].qname in REG_PARENTS]
+                S = [i for i in M if w.nodes[i].nodeType == 1 and w.nodes[i].qname == QSTYLE]
+                if not C: continue
+                c = r.choice(C); cn = w.nodes[c]
+                what = r.random()
+                if what < 0.4 and S:
+                    st = r.choice(S)
+                    if w.is_ancestor_or_self(st, c): continue
+                    return ['append', c, st]
+                if cn.parentNode is None:
+                    A = [p for p in P if attached_to(w.nodes[p], w.doc.topnode) and not w.is_ancestor_or_self(c, p)]
+                    if A: return ['append', r.choice(A), c]
+                else:
+                    return ['rm', w.nid(cn.parentNode), c]
+                continue
             if k == 'attach':
                 A = [p for p in P if attached_to(w.nodes[p], w.doc.topnode)]
                 p = r.choice(A); c = r.choice(M)
@@ -462,16 +478,58 @@ def report(chk, h):
     chk.fail(sig, {'ops': ops}, detail)
 
 
-def correspond(chk, drv, h):
+def first_diff(drv, h):
     w = h.w
     model = drv.batch(w.lines)
-    chk.corr(len(w.lines) // 2)
     for j, (x, y) in enumerate(zip(w.impl, model)):
         if x != y:
-            chk.corr_diff({'ops': h.ops, 'line_index': j}, x[:1500], y[:1500],
-                          'answer / full state after request %d (%s)' % (j, w.lines[j]))
-            return False
-    return True
+            return j, x, y
+    return None
+
+
+def shrink_corr(drv, ops):
+    """smallest history (single ops dropped) on which code and model still end in different states"""
+    cur = list(ops)
+    changed = True
+    while changed:
+        changed = False
+        for i in range(len(cur) - 1, -1, -1):
+            if cur[i][0] == 'new': continue
+            cand = cur[:i] + cur[i + 1:]
+            try:
+                h = replay_history(cand)
+                if h.orc.failed or not h.w.model_on: continue
+                d = first_diff(drv, h)
+            except Exception:
+                continue
+            if d is not None:
+                cur = cand; changed = True
+                break
+    return cur
+
+
+def correspond(chk, drv, h):
+    w = h.w
+    chk.corr(len(w.lines) // 2)
+    d = first_diff(drv, h)
+    if d is None:
+        return True
+    j, x, y = d
+    ops = h.ops
+    if not chk.corr_diffs:                      # the first disagreement of a run is reduced to a short history
+        try:
+            ops = shrink_corr(drv, [o for o in h.ops if o[0] != 'load'])
+            h2 = replay_history(ops)
+            d2 = first_diff(drv, h2)
+            if d2 is not None:
+                j, x, y = d2; w = h2.w
+            else:
+                ops = h.ops
+        except Exception:
+            ops = h.ops
+    chk.corr_diff({'ops': ops, 'line_index': j}, x[:1500], y[:1500],
+                  'answer / full state after request %d (%s)' % (j, w.lines[j]))
+    return False
 
 
 def exhaustive(chk, drv, depth, cap):
@@ -530,8 +588,32 @@ def exhaustive(chk, drv, depth, cap):
     return len(seen), n
 
 
+def targeted_histories():
+    """scripted histories for the situations random search reaches rarely: a container of styles moved as a whole,
+    a registered style that ends up outside the style sections, name clashes onto taken names.
+    Ids: skeleton 0..11 (7 = office:styles, 8 = office:automatic-styles, 11 = office:text), then the prologue:
+    12,13 P; 14,15 Span; 16 Section; 17 H; 18 List; 19 ListItem; 20 Styles; 21 AutomaticStyles; 22..25 Style A,B,A,MA"""
+    NS = D.STYLENS
+    look = [['style', u'A'], ['style', u'B'], ['style', u'MA'], ['style', u'C']]
+    return [
+        # container with a style attached as a whole, removed as a whole; the style then goes under office:text
+        [['append', 20, 22], ['append', 7, 23], ['append', 11, 20]] + look + [['rm', 11, 20]] + look +
+        [['append', 11, 22]] + look + [['append', 11, 20]] + look,
+        # the same with the container re-attached and its style moved back under office:styles
+        [['append', 21, 22], ['append', 21, 24], ['append', 7, 23], ['append', 10, 21]] + look + [['rm', 10, 21]] + look +
+        [['append', 10, 21]] + look + [['append', 7, 22]] + look,
+        # a registered style renamed, moved (still attached) out of the style sections, renamed back
+        [['append', 7, 22], ['append', 7, 23], ['setns', 22, NS, u'name', u'C']] + look + [['append', 11, 22]] + look +
+        [['setns', 22, NS, u'name', u'A']] + look + [['append', 8, 22]] + look,
+        # clash onto a taken name: MA, A, A
+        [['append', 7, 25], ['append', 7, 22], ['append', 8, 24]] + look + [['rm', 8, 24]] + look + [['rm', 7, 25]] + look,
+        # a renamed style removed, another style of its old name added
+        [['append', 7, 22], ['setns', 22, NS, u'name', u'B'], ['append', 8, 23]] + look + [['rm', 7, 22], ['append', 8, 24]] + look,
+    ]
+
+
 def run(chk, replay=None):
-    chk.rule = ('histories of <= 30 operations on a real text document with 13 extra elements (4 of them style:style named A, B, A, MA), '
+    chk.rule = ('histories of <= 30 operations on a real text document with 14 extra elements (4 of them style:style named A, B, A, MA; a free office:styles and a free office:automatic-styles container), '
                 '2 text and 1 CDATA node: append / insertBefore / removeChild / addElement / addText / addCDATA on attached and '
                 'detached parents (whole subtrees added, removed, re-added, moved; text nodes moved), styles added under '
                 'office:styles and office:automatic-styles, renamed, removed; xml() / metaxml() / save() interleaved; load() of the saved '
@@ -562,6 +644,16 @@ def run(chk, replay=None):
         chk.count('history_with_load' if h.loaded else 'history_no_load')
         if h.orc.renamed: chk.count('history_with_rename_of_registered_style')
         if h.orc.dupnames: chk.count('history_with_duplicate_style_names')
+        if h.orc.failed:
+            report(chk, h)
+    for k, script in enumerate(targeted_histories()):
+        h = History(chk.rng)
+        h.prologue()
+        for op in script:
+            if h.orc.failed: break
+            h.step(op)
+        correspond(chk, drv, h)
+        chk.case('targeted-%d' % k, nontrivial=True); chk.count('targeted_history')
         if h.orc.failed:
             report(chk, h)
     ns, na = exhaustive(chk, drv, 4 if thorough else 1, 1200 if thorough else 200)
